@@ -1,7 +1,7 @@
 """C31 nREPL interrupt stops the running eval and no other; close stops the running eval."""
 import json, os, time
 from ..core import Machinery
-from .. import schedx
+from .. import schedx, e4
 
 REG = dict(
     engine="E3-sched",
@@ -11,7 +11,10 @@ REG = dict(
          "at most 2 (quick) / 3 (thorough) deviations is executed. Oracle on the recorded trace: if, when the handler's store of the interrupt flag ran, a worker had dequeued an "
          "eval and later executes at least one more interpreter step of it, that eval must end with status `interrupted` (and the run must become quiescent: prompt); an eval that "
          "was not yet dequeued when the store ran must not end `interrupted`; evals of other sessions are unaffected; after `close`/connection drop the running eval ends.",
-    note="As C30. 'Promptly' is checked as: the next interpreter step of the target eval after the store observes the flag (no further steps execute) and the run reaches "
+    note="Thorough tier additionally runs E4: TLC explores the complete state graph (all interleavings, no deviation bound) of a TLA+ model of the handler/worker/flag protocol "
+         "(models/NreplSession.tla, action names = scheduling-point labels) for the single-session scenarios and checks the same invariants outside the known window; every real "
+         "trace recorded by E3 is projected onto the model's alphabet and must be a path of the dumped state graph, and every model counterexample is replayed on the real code by a "
+         "label-directed schedule (the verdict of record is always an execution of the real code). As C30. 'Promptly' is checked as: the next interpreter step of the target eval after the store observes the flag (no further steps execute) and the run reaches "
          "quiescence within the step horizon.",
     design_ref="DESIGN.md §6 C31",
 )
@@ -134,6 +137,50 @@ def check_exec(ctx, name, scn, res, prefix, cost):
             return
 
 
+E4_SCRIPTS = {"I1-running": "I1", "I2-behind": "I2", "I3-next-eval": "I3", "I4-queued": "I4"}
+
+
+def model_conformance(ctx, projected, horizon):
+    """E4: TLC on the protocol model, every recorded real trace must be a path of the model, every model counterexample is replayed on the code."""
+    workdir = e4.prepare(ctx.scratch)
+    states = edges = walked = rejected = 0
+    reproduced = []
+    for name, sc in E4_SCRIPTS.items():
+        if name not in projected:
+            continue
+        try:
+            graph = e4.model_graph(workdir, sc)
+        except e4.ModelViolation as mv:
+            raise Machinery(f"E4: the protocol model itself violates an invariant outside the window for script {sc}: {mv.out[-600:]}")
+        states += graph[2]
+        edges += graph[3]
+        bad = []
+        for seq in sorted(projected[name]):
+            ok, k = e4.accepts(graph, list(seq))
+            walked += 1
+            if not ok:
+                rejected += 1
+                bad.append((list(seq), k))
+        if bad and not ctx.violations:
+            seq, k = bad[0]
+            raise Machinery(f"E4: {len(bad)} recorded traces of {name} are not behaviours of the model (first: diverges at position {k}: {seq[:k + 1]}); the model misrepresents the code")
+        cx = e4.counterexample(workdir, sc)
+        if cx:
+            scn = SCENARIOS[name]
+            res = e4.directed_replay(ctx.binary, scn["script"], cx, horizon)
+            if res is None:
+                raise Machinery(f"E4: the model counterexample for {sc} cannot be followed on the real code: {cx}")
+            before = set(ctx.violations)
+            check_exec(ctx, name, scn, res, [p["choice"] for p in res["trace"]], -1)
+            hit = set(ctx.violations) - before or {s for s in ctx.violations if "store landed between" in s}
+            reproduced.append({"script": sc, "model_trace": cx, "reproduced_on_code": bool(hit)})
+    ctx.cov["e4_model"] = {"tlc_states": states, "tlc_transitions": edges, "real_traces_walked_through_model": walked, "real_traces_rejected_by_model": rejected,
+                           "model_counterexamples": reproduced}
+    ctx.cov["traces_validated_against_impl"] += walked + len(reproduced)
+    ctx.outcome("E4: real traces accepted by the model", walked - rejected)
+    ctx.outcome("E4: model counterexamples reproduced on the code", sum(1 for r in reproduced if r["reproduced_on_code"]))
+
+
 def run(ctx):
     bound = 2 if ctx.quick else 3
     budget = float(os.environ.get("GV_SCHED_BUDGET", 45 if ctx.quick else 1500))
@@ -149,6 +196,7 @@ def run(ctx):
     completed = {}
     stats_all = {"interrupted": 0}
     bases = {}
+    projected = {}
 
     def explore(name, bnd, deadline):
         scn = SCENARIOS[name]
@@ -156,6 +204,8 @@ def run(ctx):
         def chk(res, prefix, cost):
             if any("interrupted" in schedx.status_of(m) for m in res["responses"]):
                 stats_all["interrupted"] += 1
+            if name in E4_SCRIPTS:
+                projected.setdefault(name, set()).add(tuple(e4.project(res)))
             check_exec(ctx, name, scn, res, prefix, cost)
         ex = schedx.Explorer(ctx.binary, scn["script"], horizon, bnd, chk, deadline=deadline)
         ex.explore()
@@ -213,6 +263,8 @@ def run(ctx):
             ctx.sample({"scenario": name, "script": SCENARIOS[name]["script"], "default_schedule": [f"{t}:{l}" for (i, t, l, to) in schedx.executed_ops(bases[name])][:80]})
     completed = list(completed.values())
     seen_interrupted = stats_all["interrupted"]
+    if not ctx.quick or os.environ.get("GV_E4"):
+        model_conformance(ctx, projected, horizon)
     ctx.bound("deviation_bound_completed_all_scenarios", min(completed))
     if min(completed) < 1:
         raise Machinery(f"time budget too small: completed deviation bounds {completed}")
